@@ -17,7 +17,8 @@
      C13 refutations        untagged keys (F04), name-only data-set keys (F05), name+NUL keys (F44) *)
 From Coq Require Import String.
 From Coq Require Import List NArith Bool Lia.
-From Verif Require Import Base Memo.
+From Coq Require Import ZifyN ZifyBool ZifyNat.
+From Verif Require Import Base Utf8 Transform CaseMap CaseMapProofs Memo.
 Import ListNotations.
 Open Scope N_scope.
 
@@ -687,11 +688,12 @@ Qed.
 
 Section ConcreteProofs.
   Variable tags : kind -> bytes.
+  Variable lower : bytes -> bytes.     (* strings.ToLower: ANY function here *)
   Variable hash : bytes -> bytes.
   Variables re_ok binre_ok schema_ok : bytes -> bool.
 
-  Notation key := (ckey_of tags hash).
-  Notation bld := (cbuild re_ok binre_ok schema_ok).
+  Notation key := (ckey_of tags lower hash).
+  Notation bld := (cbuild lower re_ok binre_ok schema_ok).
 
   (* the type assertion of a call site accepts what its own builder returns: without a cache
      nothing panics *)
@@ -702,7 +704,7 @@ Section ConcreteProofs.
       intro H; inversion H; reflexivity.
   Qed.
 
-  Lemma nocache_never_panics rs : forall l, cconstruct_nocache re_ok binre_ok schema_ok rs <> Panicked l.
+  Lemma nocache_never_panics rs : forall l, cconstruct_nocache lower re_ok binre_ok schema_ok rs <> Panicked l.
   Proof.
     unfold cconstruct_nocache. induction rs as [|r rs IH]; intros l; cbn [construct_nocache]; [discriminate|].
     destruct (bld r) as [a|x] eqn:B; [|discriminate].
@@ -714,7 +716,7 @@ Section ConcreteProofs.
   (* the keys of the code are faithful: equal keys => equal builder outputs *)
   Theorem ckeys_faithful (U : creq -> Prop) :
     tags_prefix_free tags = true ->
-    (forall r, U r -> wf_creq r = true) ->
+    (forall r, U r -> wf_creq lower r = true) ->
     (forall a b, U (RSchema a) -> U (RSchema b) -> hash a = hash b -> a = b) ->
     faithful_on creq cart cerr key bld U.
   Proof.
@@ -729,7 +731,62 @@ Section ConcreteProofs.
     - destruct pf, pf0; cbn in H; inversion H; subst; reflexivity.
     - subst. reflexivity.
     - subst. reflexivity.
+    - rewrite H. reflexivity.
+    - rewrite <- H. reflexivity.
+    - rewrite H. reflexivity.
     - rewrite (HI _ _ U1 U2 H). reflexivity.
+  Qed.
+
+  (* ---- lower-casing call sites: the key is the lower-cased text, and so is the builder's input.
+     Two phrase lists / line lists / regex keys share a cache entry EXACTLY when their lower-cased
+     forms are equal, and then they compile to the same object: sharing is sound also for pairs that
+     collide only after lower-casing (U+212A / k, U+0130 / i, an invalid byte / U+FFFD) ---- *)
+  Theorem pm_key_iff a b : key (RPm a) = key (RPm b) <-> lower a = lower b.
+  Proof.
+    unfold ckey_of. cbn [kind_of payload]. split; intro H.
+    - apply app_inv_head in H. exact H.
+    - rewrite H. reflexivity.
+  Qed.
+
+  Theorem pm_collision_same_object a b :
+    lower a = lower b -> key (RPm a) = key (RPm b) /\ bld (RPm a) = bld (RPm b).
+  Proof. intro H. split; [apply pm_key_iff; exact H | cbn [cbuild]; rewrite H; reflexivity]. Qed.
+
+  Theorem pmf_key_iff l1 l2 :
+    forallb wf_line (map lower l1) = true -> forallb wf_line (map lower l2) = true ->
+    (key (RPmF l1) = key (RPmF l2) <-> map lower l1 = map lower l2).
+  Proof.
+    intros W1 W2. unfold ckey_of. cbn [kind_of payload]. split; intro H.
+    - apply app_inv_head in H. apply join_inj; assumption.
+    - rewrite H. reflexivity.
+  Qed.
+
+  Theorem pmf_collision_same_object l1 l2 :
+    map lower l1 = map lower l2 -> key (RPmF l1) = key (RPmF l2) /\ bld (RPmF l1) = bld (RPmF l2).
+  Proof.
+    intro H. split; [unfold ckey_of; cbn [kind_of payload]; rewrite H; reflexivity | cbn [cbuild]; rewrite H; reflexivity].
+  Qed.
+
+  Theorem rel_key_iff s1 s2 a b : key (RReL s1 a) = key (RReL s2 b) <-> lower a = lower b.
+  Proof.
+    unfold ckey_of. cbn [kind_of payload]. split; intro H.
+    - apply app_inv_head in H. exact H.
+    - rewrite H. reflexivity.
+  Qed.
+
+  Theorem rel_collision_same_object s1 s2 a b :
+    lower a = lower b -> key (RReL s1 a) = key (RReL s2 b) /\ bld (RReL s1 a) = bld (RReL s2 b).
+  Proof. intro H. split; [apply rel_key_iff; exact H | cbn [cbuild]; rewrite H; reflexivity]. Qed.
+
+  Theorem lowercase_collision_same_object :
+    (forall a b, lower a = lower b -> key (RPm a) = key (RPm b) /\ bld (RPm a) = bld (RPm b)) /\
+    (forall l1 l2, map lower l1 = map lower l2 -> key (RPmF l1) = key (RPmF l2) /\ bld (RPmF l1) = bld (RPmF l2)) /\
+    (forall s1 s2 a b, lower a = lower b -> key (RReL s1 a) = key (RReL s2 b) /\ bld (RReL s1 a) = bld (RReL s2 b)).
+  Proof.
+    split; [|split].
+    - apply pm_collision_same_object.
+    - apply pmf_collision_same_object.
+    - apply rel_collision_same_object.
   Qed.
 End ConcreteProofs.
 
@@ -738,30 +795,30 @@ Lemma default_tags_prefix_free : tags_prefix_free default_tags = true.
 Proof. vm_compute. reflexivity. Qed.
 
 (* C13_transparent, concrete form *)
-Theorem ctransparent tags hash re_ok binre_ok schema_ok (U : creq -> Prop) :
+Theorem ctransparent tags lower hash re_ok binre_ok schema_ok (U : creq -> Prop) :
   tags_prefix_free tags = true ->
-  (forall r, U r -> wf_creq r = true) ->
+  (forall r, U r -> wf_creq lower r = true) ->
   (forall a b, U (RSchema a) -> U (RSchema b) -> hash a = hash b -> a = b) ->
   forall h id rs,
     hist_in creq U h -> Forall U rs ->
-    snd (cconstruct tags hash re_ok binre_ok schema_ok (ps_cache (crun tags hash re_ok binre_ok schema_ok h)) id rs)
-    = cconstruct_nocache re_ok binre_ok schema_ok rs.
+    snd (cconstruct tags lower hash re_ok binre_ok schema_ok (ps_cache (crun tags lower hash re_ok binre_ok schema_ok h)) id rs)
+    = cconstruct_nocache lower re_ok binre_ok schema_ok rs.
 Proof.
   intros PF WF HI h id rs H Urs. unfold cconstruct, crun, cconstruct_nocache.
   apply (transparent creq cart cerr _ _ _ U); [|exact H|exact Urs].
   apply ckeys_faithful; assumption.
 Qed.
 
-Corollary cnever_panics tags hash re_ok binre_ok schema_ok (U : creq -> Prop) :
+Corollary cnever_panics tags lower hash re_ok binre_ok schema_ok (U : creq -> Prop) :
   tags_prefix_free tags = true ->
-  (forall r, U r -> wf_creq r = true) ->
+  (forall r, U r -> wf_creq lower r = true) ->
   (forall a b, U (RSchema a) -> U (RSchema b) -> hash a = hash b -> a = b) ->
   forall h id rs l,
     hist_in creq U h -> Forall U rs ->
-    snd (cconstruct tags hash re_ok binre_ok schema_ok (ps_cache (crun tags hash re_ok binre_ok schema_ok h)) id rs)
+    snd (cconstruct tags lower hash re_ok binre_ok schema_ok (ps_cache (crun tags lower hash re_ok binre_ok schema_ok h)) id rs)
     <> Panicked l.
 Proof.
-  intros PF WF HI h id rs l H Urs. rewrite (ctransparent tags hash re_ok binre_ok schema_ok U PF WF HI h id rs H Urs).
+  intros PF WF HI h id rs l H Urs. rewrite (ctransparent tags lower hash re_ok binre_ok schema_ok U PF WF HI h id rs H Urs).
   apply nocache_never_panics.
 Qed.
 
@@ -774,31 +831,31 @@ Definition id_hash (b : bytes) : bytes := b.
    and its type assertion to AhoCorasick panics.  The no-cache build is fine. *)
 Lemma untagged_keys_refuted :
   exists rs,
-    snd (cconstruct untagged id_hash all_ok all_ok all_ok [] 1 rs) = Panicked [ARegexp (str "foo"%string)]
-    /\ cconstruct_nocache all_ok all_ok all_ok rs = Built [ARegexp (str "foo"%string); AAho true [str "foo"]].
+    snd (cconstruct untagged lower_ascii id_hash all_ok all_ok all_ok [] 1 rs) = Panicked [ARegexp (str "foo"%string)]
+    /\ cconstruct_nocache lower_ascii all_ok all_ok all_ok rs = Built [ARegexp (str "foo"%string); AAho true [str "foo"]].
 Proof. exists [RRe SRuleVar (str "foo"%string); RPm (str "foo"%string)]. split; vm_compute; reflexivity. Qed.
 
 (* F05 (before 0162365): data sets keyed by NAME.  WAF 1 has SecDataset ds = [aaa], WAF 2 has
    SecDataset ds = [bbb]; WAF 2's @pmFromDataset ds gets WAF 1's matcher. *)
-Definition key_name_only (r : creq) : bytes := default_tags (kind_of r) ++ payload_name_only id_hash r.
+Definition key_name_only (r : creq) : bytes := default_tags (kind_of r) ++ payload_name_only lower_ascii id_hash r.
 Lemma name_only_key_refuted :
   exists h id rs,
-    snd (construct creq cart cerr key_name_only (cbuild all_ok all_ok all_ok) cexpect
-           (ps_cache (run creq cart cerr key_name_only (cbuild all_ok all_ok all_ok) cexpect h)) id rs)
-    <> cconstruct_nocache all_ok all_ok all_ok rs.
+    snd (construct creq cart cerr key_name_only (cbuild lower_ascii all_ok all_ok all_ok) cexpect
+           (ps_cache (run creq cart cerr key_name_only (cbuild lower_ascii all_ok all_ok all_ok) cexpect h)) id rs)
+    <> cconstruct_nocache lower_ascii all_ok all_ok all_ok rs.
 Proof.
   exists [EBuild 1 [RPmDs (str "ds"%string) [str "aaa"]]], 2, [RPmDs (str "ds"%string) [str "bbb"]].
   vm_compute. discriminate.
 Qed.
 
 (* F44 (0162365 .. 54cadaf): key = name + NUL + entries is ambiguous when a name contains NUL *)
-Definition key_name_nul (r : creq) : bytes := default_tags (kind_of r) ++ payload_name_nul id_hash r.
+Definition key_name_nul (r : creq) : bytes := default_tags (kind_of r) ++ payload_name_nul lower_ascii id_hash r.
 Lemma name_nul_key_refuted :
   exists h id rs,
-    Forall (fun r => wf_creq r = true) rs /\
-    snd (construct creq cart cerr key_name_nul (cbuild all_ok all_ok all_ok) cexpect
-           (ps_cache (run creq cart cerr key_name_nul (cbuild all_ok all_ok all_ok) cexpect h)) id rs)
-    <> cconstruct_nocache all_ok all_ok all_ok rs.
+    Forall (fun r => wf_creq lower_ascii r = true) rs /\
+    snd (construct creq cart cerr key_name_nul (cbuild lower_ascii all_ok all_ok all_ok) cexpect
+           (ps_cache (run creq cart cerr key_name_nul (cbuild lower_ascii all_ok all_ok all_ok) cexpect h)) id rs)
+    <> cconstruct_nocache lower_ascii all_ok all_ok all_ok rs.
 Proof.
   exists [EBuild 1 [RPmDs [97; 0; 98] [[99]]]], 2, [RPmDs [97] [[98; 0; 99]]].
   split; [repeat constructor|]. vm_compute. discriminate.
@@ -809,7 +866,7 @@ Example ckeys_faithful_instance :
   let U := fun r => In r [RPm (str "Foo bar"%string); RRe SRuleVar (str "foo"%string); RRx true (str "foo"%string);
                           RPmDs (str "ds"%string) [str "aaa"]; RPmDs (str "ds"%string) [str "bbb"];
                           RSchema (str "{}"%string); RSchema (str "{""a"":1}"%string)] in
-  faithful_on creq cart cerr (ckey_of default_tags id_hash) (cbuild all_ok all_ok all_ok) U.
+  faithful_on creq cart cerr (ckey_of default_tags lower_ascii id_hash) (cbuild lower_ascii all_ok all_ok all_ok) U.
 Proof.
   intro U. apply ckeys_faithful.
   - exact default_tags_prefix_free.
@@ -845,3 +902,86 @@ Section ReleaseSafeFull.
     apply (release_safe req art err key_of build expect h2 (mk_ps (fst co) (ps_closed s1))); assumption.
   Qed.
 End ReleaseSafeFull.
+
+(* ==================================================================================== *)
+(* strings.ToLower (CaseMap.utf8_map over a case table) and the well-formedness of lines   *)
+(* ==================================================================================== *)
+Ltac Zify.zify_post_hook ::= Z.div_mod_to_equations.
+
+(* ---- the real strings.ToLower keeps a kept line kept: non-empty and newline-free ---- *)
+Definition tbl_above (n : N) (tbl : list case_range) : bool :=
+  forallb (fun x => match x with (lo, _, _, tg) => (n <? lo) && (n <? tg) end) tbl.
+
+Lemma map_rune_above n tbl : tbl_above n tbl = true -> forall r, map_rune tbl r <= n -> r = map_rune tbl r.
+Proof.
+  induction tbl as [|[[[lo hi] st] tg] rest IH]; cbn [tbl_above forallb map_rune]; intros A r H; [reflexivity|].
+  apply andb_true_iff in A as [A1 A2]. apply andb_true_iff in A1 as [L T].
+  apply N.ltb_lt in L. apply N.ltb_lt in T.
+  destruct (r <? lo) eqn:E1; [reflexivity|].
+  destruct ((r <=? hi) && ((r - lo) mod st =? 0)) eqn:E2.
+  - exfalso. lia.
+  - apply IH; assumption.
+Qed.
+
+Lemma encode_rune_newline r : In 10 (encode_rune r) -> r = 10.
+Proof.
+  unfold encode_rune, in_rng, rune_error.
+  destruct ((1114111 <? r) || ((55296 <=? r) && (r <=? 57343))) eqn:B.
+  - vm_compute. intros [H|[H|[H|[]]]]; discriminate.
+  - destruct (r <? 128) eqn:E1; [cbn [In]; intros [H|[]]; congruence|].
+    destruct (r <? 2048) eqn:E2; [cbn [In]; intros [H|[H|[]]]; lia|].
+    destruct (r <? 65536) eqn:E3; [cbn [In]; intros [H|[H|[H|[]]]]; lia|].
+    cbn [In]. intros [H|[H|[H|[H|[]]]]]; lia.
+Qed.
+
+Lemma decode_rune_newline s : ~ In 10 s -> fst (decode_rune s) <> 10.
+Proof.
+  intro N. destruct s as [|b0 r]; [cbn; unfold rune_error; lia|].
+  assert (N0 : b0 <> 10) by (intro E; apply N; left; congruence).
+  unfold decode_rune, in_rng, rune_error.
+  destruct (b0 <? 128) eqn:E0; [cbn; congruence|].
+  destruct ((194 <=? b0) && (b0 <=? 223)) eqn:E1.
+  { destruct r as [|b1 r]; [cbn [fst]; lia|].
+    destruct ((128 <=? b1) && (b1 <=? 191)) eqn:F; cbn [fst]; lia. }
+  destruct ((224 <=? b0) && (b0 <=? 239)) eqn:E2.
+  { destruct r as [|b1 [|b2 r]]; try (cbn [fst]; lia).
+    destruct (b0 =? 224) eqn:G1; destruct (b0 =? 237) eqn:G2;
+    match goal with |- context [if ?c then _ else _] => destruct c eqn:F end; cbn [fst]; lia. }
+  destruct ((240 <=? b0) && (b0 <=? 244)) eqn:E3.
+  { destruct r as [|b1 [|b2 [|b3 r]]]; try (cbn [fst]; lia).
+    destruct (b0 =? 240) eqn:G1; destruct (b0 =? 244) eqn:G2;
+    match goal with |- context [if ?c then _ else _] => destruct c eqn:F end; cbn [fst]; lia. }
+  cbn. lia.
+Qed.
+
+Lemma In_skipn_incl {A} (x : A) n l : In x (skipn n l) -> In x l.
+Proof. revert l. induction n as [|n IH]; intros [|a l]; cbn; auto. Qed.
+
+Lemma utf8_map_fuel_newline f : (forall r, f r = 10 -> r = 10) ->
+  forall fuel s, ~ In 10 s -> ~ In 10 (utf8_map_fuel f fuel s).
+Proof.
+  intros Hf. induction fuel as [|k IH]; intros s N; cbn [utf8_map_fuel]; [intros []|].
+  destruct s as [|b t]; [intros []|].
+  pose proof (decode_rune_newline (b :: t) N) as D.
+  destruct (decode_rune (b :: t)) as [r w]. cbn [fst] in D.
+  intro I. apply in_app_or in I as [I|I].
+  - apply encode_rune_newline in I. apply Hf in I. contradiction.
+  - apply (IH (skipn w (b :: t))); [|exact I]. intro J. apply N. apply In_skipn_incl in J. exact J.
+Qed.
+
+Lemma utf8_map_nonempty f s : s <> [] -> utf8_map f s <> [].
+Proof.
+  destruct s as [|b t]; [congruence|]. intros _. unfold utf8_map. cbn [length utf8_map_fuel].
+  destruct (decode_rune (b :: t)) as [r w].
+  pose proof (encode_rune_len (f r)) as L. destruct (encode_rune (f r)); cbn in *; [lia | discriminate].
+Qed.
+
+Theorem lower_keeps_wf_line tbl l :
+  tbl_above 10 tbl = true -> wf_line l = true -> wf_line (utf8_map (map_rune tbl) l) = true.
+Proof.
+  intros A W. apply wf_line_spec in W as [N NE]. unfold wf_line. apply andb_true_iff. split.
+  - apply negb_true_iff. destruct (memo_mem 10 (utf8_map (map_rune tbl) l)) eqn:M; [|reflexivity].
+    exfalso. apply memo_mem_In in M. revert M. apply utf8_map_fuel_newline; [|exact N].
+    intros r H. rewrite (map_rune_above 10 tbl A r); [exact H | lia].
+  - pose proof (utf8_map_nonempty (map_rune tbl) l NE) as Z. destruct (utf8_map (map_rune tbl) l); [congruence | reflexivity].
+Qed.
